@@ -36,6 +36,7 @@ type sched struct {
 }
 
 type mutexState struct {
+	pending int // writers that have called RWMutex.Lock and wait for the readers to drain
 	writer  bool
 	readers int
 }
@@ -308,11 +309,29 @@ func threadIntrinsics(m map[string]Intrinsic) {
 	}
 	m["(*sync.Mutex).Lock"] = lock
 	m["(*sync.Mutex).Unlock"] = unlock
-	m["(*sync.RWMutex).Lock"] = lock
+	// sync.RWMutex as documented: "if any goroutine calls Lock while the lock is already held by one or more
+	// readers, concurrent calls to RLock will block until the writer has acquired (and released) the lock". A writer
+	// therefore first announces itself (one scheduling point) and then waits for the readers to drain; a reader that
+	// re-acquires the read lock while a writer is announced deadlocks, as it does in the real runtime.
+	m["(*sync.RWMutex).Lock"] = func(r *run, fr *frame, args []Value) Value {
+		mu := r.mutexOf(args[0].(*Value))
+		if !mu.writer && mu.readers == 0 && mu.pending == 0 {
+			// uncontended: a single step
+			r.yieldOn("Lock", []any{mu}, func() bool { return !mu.writer && mu.readers == 0 })
+			mu.writer = true
+			return nil
+		}
+		r.yieldOn("Lock (announce)", []any{mu}, nil)
+		mu.pending++
+		r.yieldOn("Lock", []any{mu}, func() bool { return !mu.writer && mu.readers == 0 })
+		mu.pending--
+		mu.writer = true
+		return nil
+	}
 	m["(*sync.RWMutex).Unlock"] = unlock
 	m["(*sync.RWMutex).RLock"] = func(r *run, fr *frame, args []Value) Value {
 		mu := r.mutexOf(args[0].(*Value))
-		r.yieldOn("RLock", []any{mu}, func() bool { return !mu.writer })
+		r.yieldOn("RLock", []any{mu}, func() bool { return !mu.writer && mu.pending == 0 })
 		mu.readers++
 		return nil
 	}
